@@ -1,5 +1,5 @@
 (** C19 — pinned statements. Nothing but statements, [exact], and assumption audits. *)
-From TU Require Import Base C19_Model C19_Proofs C19_Count C19_Check C19_Delta.
+From TU Require Import Base C19_Model C19_Proofs C19_Count C19_Check C19_Delta C19_NoDup.
 From Coq Require Import Permutation.
 Open Scope N_scope.
 
@@ -147,18 +147,39 @@ Theorem update_recount : forall c p, Fresh c p ->
 Proof. exact update_recount_l. Qed.
 Print Assumptions update_recount.
 
-(** Freshness holds at every step of a run whose entries are spelled differently … *)
-Theorem run_fresh : forall c k ps, CorpusOK [] c -> Run c k ps -> NoDup (map merge ps) ->
+(** Different merges of one run never spell the same token (so the hash map of
+    the implementation gets ids exactly 0..n-1), for every run from a byte-level
+    vocabulary in which each pair merely occurs when it is merged.  Invariant: every
+    token-aligned span segments in isolation exactly as in context ([span_inv]). *)
+Theorem run_nodup : forall c k ps, CorpusOK [] c -> Run c k ps -> NoDup (map merge ps).
+Proof. exact run_nodup_l. Qed.
+Print Assumptions run_nodup.
+
+(** The table of every accepted run is a well-formed merge table in the sense of
+    C02/C03/C04 ([TableOK]: distinct entries of at least two bytes) … *)
+Theorem run_table_ok : forall c k ps, CorpusOK [] c -> Run c k ps ->
+  NoDup (map merge ps) /\ Forall (fun e => (2 <= length e)%nat) (map merge ps).
+Proof. exact run_table_ok_l. Qed.
+Print Assumptions run_table_ok.
+
+(** … and so is every implementation table that passes the check. *)
+Theorem checked_table_ok : forall v out, check_C19 v out = true ->
+  NoDup (out_entries out) /\ Forall (fun e => (2 <= length e)%nat) (out_entries out).
+Proof. exact checked_table_ok_l. Qed.
+Print Assumptions checked_table_ok.
+
+(** The merged token is new at every step of a run (the premise of [update_recount]) … *)
+Theorem run_fresh : forall c k ps, CorpusOK [] c -> Run c k ps ->
   forall i p, nth_error ps i = Some p -> Fresh (state_after c (firstn i ps)) p.
-Proof. exact run_fresh_l. Qed.
+Proof. exact run_fresh_full_l. Qed.
 Print Assumptions run_fresh.
 
-(** … hence every run of the incremental trainer (any choice among the pairs whose
-    recorded frequency is positive and maximal) that spells its entries
-    differently is an accepted run of the recount specification. *)
-Theorem inc_refines : forall c F k ps, IRun c F k ps -> (forall q, F q = pair_freq c q) ->
-  forall tbl, CorpusOK tbl c -> NoDup (tbl ++ map merge ps) -> Run c k ps.
-Proof. exact inc_refines_l. Qed.
+(** … hence every run of the incremental trainer (the loop of [train_bpe] on
+    vocabulary + statistics, any choice among the pairs whose recorded frequency is
+    positive and maximal) started on the recounted statistics of a byte-level
+    vocabulary is an accepted run of the recount specification. *)
+Theorem inc_refines : forall c k ps, CorpusOK [] c -> IRun c (pair_freq c) k ps -> Run c k ps.
+Proof. exact inc_refines_full_l. Qed.
 Print Assumptions inc_refines.
 
 (** Non-vacuity.  Corpus "ab ab", 64 merges: the run [ab; " ab"] is accepted and
@@ -193,3 +214,13 @@ Example ex_fresh_needed :
   upd_word p w 1 (fupd (fun x => count_pair x (word_pairs w)) p 0) ([97; 98], [99]) = 2
   /\ count_pair ([97; 98], [99]) (word_pairs (replace_in_word p w)) = 1.
 Proof. vm_compute. split; reflexivity. Qed.
+(** the incremental trainer has runs: one step on the vocabulary {ab} *)
+Example ex_irun : IRun [([[97]; [98]], 1)] (pair_freq [([[97]; [98]], 1)]) 1 [([97], [98])].
+Proof.
+  apply IRun_step.
+  - vm_compute. reflexivity.
+  - intros q. pose proof (max_freq_ge [([[97]; [98]], 1)] q) as H.
+    replace (pair_freq [([[97]; [98]], 1)] ([97], [98])) with (max_freq [([[97]; [98]], 1)]) by (vm_compute; reflexivity).
+    exact H.
+  - apply IRun_budget.
+Qed.
